@@ -146,9 +146,49 @@ def liesel_two_steps_case(col):
                              f"returned (a, b) = ({float(s2['a_value'].value)}, {float(s2['b_value'].value)}); log-ratio is -200, expected probability 0 and the input state", "input": {"proposals": [{"a": 0.0}, {"b": 20.0}]}})
 
 
+def rejected_state_case(col):
+    """a REJECTED proposal (acceptance probability 0) through every shipped state-passing interface, with an entry whose value is a mutable
+    container (dict of arrays): the returned state must equal the input state exactly, and the caller's state object must be unchanged"""
+    import collections
+    import copy
+    import dataclasses
+    import liesel.goose as gs
+
+    @dataclasses.dataclass
+    class DState:
+        params: dict
+        lp: float
+
+    jax.tree_util.register_pytree_node(DState, lambda o: ([o.params, o.lp], None), lambda aux, ch: DState(*ch))
+    NState = collections.namedtuple("NState", ["params", "lp"])
+    ks, _ = keys_pool()
+    bad = None
+    for name, iface, mk, rd in (
+        ("dict", gs.DictInterface(lambda s: s["lp"]), lambda p, lp: {"params": p, "lp": lp}, lambda s: (s["params"], s["lp"])),
+        ("dataclass", gs.DataclassInterface(lambda s: s.lp), DState, lambda s: (s.params, s.lp)),
+        ("namedtuple", gs.NamedTupleInterface(lambda s: s.lp), NState, lambda s: (s.params, s.lp)),
+    ):
+        state = mk({"mu": jnp.float32(0.5), "tau": jnp.float32(2.0)}, jnp.float32(0.0))
+        before = copy.deepcopy(rd(state))
+        info, new = mh_step(ks[1], iface, {"params": {"mu": jnp.float32(7.0), "tau": jnp.float32(9.0)}, "lp": jnp.float32(-jnp.inf)}, state)
+        got_p, got_lp = rd(new)
+        same = sorted(got_p) == ["mu", "tau"] and float(got_p["mu"]) == 0.5 and float(got_p["tau"]) == 2.0 and float(got_lp) == 0.0
+        mine = rd(state)
+        untouched = sorted(mine[0]) == sorted(before[0]) and all(float(mine[0][k]) == float(before[0][k]) for k in before[0])
+        if bool(info.position_moved) or float(info.acceptance_prob) != 0.0 or not same or not untouched:
+            bad = (f"{name} interface: proposal with zero density: moved={bool(info.position_moved)} prob={float(info.acceptance_prob)}; returned params "
+                   f"{ {k: float(v) for k, v in got_p.items()} } (input was mu=0.5, tau=2.0); caller's state afterwards { {k: float(v) for k, v in mine[0].items()} }")
+            break
+    col.add(None if bad is None else {"sig": "native::mh_step::rejected_state_not_the_input_state", "what": bad, "input": {"state_entry": "dict of arrays", "proposal": {"params": {"mu": 7.0, "tau": 9.0}, "lp": "-inf"}}})
+
+
 def bounded(tier, seed):
     ks, us = keys_pool()
     col = util.Collector()
+    try:
+        rejected_state_case(col)
+    except Exception as e:
+        col.add({"sig": f"native::mh_step::exception::{type(e).__name__}", "what": str(e)[:300], "input": {"scenario": "rejected proposal, dict-valued entry"}})
     try:
         liesel_two_steps_case(col)
     except Exception as e:
@@ -181,7 +221,7 @@ def bounded(tier, seed):
                  f"current/proposed log-prob and correction x {len(ks) if tier != 'quick' else 3} PRNG keys incl. PRNGKey({ZERO_KEY_SEED}) whose uniform draw is exactly 0.0, "
                  f"plus {extra} seeded random triples (seed={seed}); a case is distinct by its (cur, prop, corr, key) tuple. Kernel level: MHKernel with log-corrections "
                  "NaN / 0 / -0.5 / -inf (eager and jit, posterior and adaptation epoch), RW and IWLS kernels on a target that is NaN beyond a threshold: code, probability, moved flag "
-                 "and returned state must be what mh_step prescribes."),
+                 "and returned state must be what mh_step prescribes; a rejected proposal through the Dict / Dataclass / NamedTuple interfaces with a dict-valued state entry (returned state = input state, caller's object untouched)."),
         "samples": [{"current": "-inf", "proposed": "0.0", "correction": "nan", "key": ZERO_KEY_SEED},
                     {"current": repr(cases[-1][0]), "proposed": repr(cases[-1][1]), "correction": repr(cases[-1][2]), "key_index": cases[-1][3]}],
         "exhaustive": False,
